@@ -104,26 +104,11 @@ def _triple(rng, scheme, beyond=True):
 
 
 def gen_policy(rng, n_schemes=None, with_cats=True, stringly=False, disabled=None, truncate=False):
-    """a well-formed policy; schemes that shadow each other (32-hex family) may be configured together, but a scheme that is
-    shadowed by an earlier one is never anybody's default (hashes it made would be attributed to the other one)"""
-    for _ in range(8):
-        cfg = _gen_policy(rng, n_schemes, with_cats, stringly, disabled)
-        if not truncate:
-            cfg.pop("truncate_error", None)  # size-limit policy is property C05's business; only C10 exports it
-        fam = [s for s in cfg["schemes"] if s in HEX32]
-        if len(fam) < 2:
-            return cfg
-        m = PolicyModel(cfg, {s: SchemeFacts(s, None) for s in cfg["schemes"]})
-        try:
-            defaults = {m.default(c) for c in (None, "admin", "staff")}
-        except Exception:
-            continue
-        if not (defaults & set(fam[1:])):
-            return cfg
+    """a well-formed policy; schemes that claim each other's strings (32-hex family) may be configured together, and a
+    shadowed one may even be a default: hashes it makes are then, by the attribution rule, read as the earlier scheme's"""
     cfg = _gen_policy(rng, n_schemes, with_cats, stringly, disabled)
-    fam = [s for s in cfg["schemes"] if s in HEX32]
-    if len(fam) > 1:
-        return _gen_policy(rng, 1, with_cats, stringly, disabled)
+    if not truncate:
+        cfg.pop("truncate_error", None)  # size-limit policy is property C05's business; only C10 exports it
     return cfg
 
 
@@ -499,8 +484,19 @@ class _PolicyRun:
         d = m.default(cat)
         ctx.check(isinstance(h, str) and h.isascii(), "C04", "hash-not-ascii-text", repr(h))
         got = m.attribute(h)
-        ctx.check(got == d, "C04", "new-hash-not-from-default-scheme",
-                  lambda: f"{where}: category {cat!r}: new hash {h!r} is attributed to {got}, default scheme is {d}", scheme=d)
+        made_by_default = _call(self.facts[d].handler.identify, h) == ("ok", True)
+        ctx.check(made_by_default, "C04", "new-hash-not-from-default-scheme",
+                  lambda: f"{where}: category {cat!r}: new hash {h!r} is not a {d} hash (default scheme)", scheme=d)
+        r = _call(self.cc.identify, h)
+        ctx.check(r == ("ok", got), "C04", "attribution-differs",
+                  lambda: f"{where}: identify({h!r}) -> {r[:2]}, first configured scheme that claims it: {got} (order {m.schemes})")
+        if got != d:
+            # the default scheme is shadowed by an earlier one that claims the same strings: by the attribution rule the
+            # context reads its own new hash as the earlier scheme's; nothing more can be asked of this configuration
+            ctx.probe("default_scheme_shadowed")
+            self.seen.add((d, "fresh-shadowed"))
+            ctx.nontrivial = True
+            return
         c = cost_of(h, d)
         lo, hi = m.window(d, cat)
         f = self.facts[d]
@@ -655,7 +651,7 @@ class _PolicyRun:
         second = self._login(op["user"], True, op["cat"], "fixed-point#2")
         h = self.table[op["user"]][0]
         s = self.model.attribute(h)
-        if s is not None and not self.model.window_empty(s, op["cat"]):
+        if s is not None and not self.model.window_empty(s, op["cat"]) and s == self.model.default(op["cat"]):
             self.ctx.check(second is None, "C04", "login-does-not-reach-fixed-point",
                            lambda: f"category {op['cat']!r}: second successful login in a row still rehashed: {first!r} -> {second!r}", scheme=s)
 
